@@ -40,6 +40,32 @@ fn start_env(tag: &str) -> Env {
 
 /// concrete request and the replies the client must see for it
 fn concretise(r: &Value, i: usize, salt: &str) -> (Value, Vec<Value>, String) {
+    concretise_paced(r, i, salt, false)
+}
+
+/// `slow`: the scripted service (B) pauses before and between its replies, so that a client can leave while the bridge waits
+fn concretise_paced(r: &Value, i: usize, salt: &str, slow: bool) -> (Value, Vec<Value>, String) {
+    let (mut q, rs, tok) = concretise_fast(r, i, salt);
+    if slow && q["method"] == "org.example.script.Run" {
+        let steps: Vec<Value> = q["parameters"]["script"].as_array().unwrap().clone();
+        let mut paced: Vec<Value> = Vec::new();
+        let mut shift = 0u64;
+        for st in steps {
+            if st == "r" || st == "e" {
+                paced.push(json!("z"));
+                paced.push(json!("z"));
+                shift += 2;
+            }
+            paced.push(st);
+        }
+        q["parameters"]["script"] = json!(paced);
+        let _ = shift;
+        // the step numbers in the replies move with the inserted pauses: compare them loosely (see reply_eq_loose_step)
+    }
+    (q, rs, tok)
+}
+
+fn concretise_fast(r: &Value, i: usize, salt: &str) -> (Value, Vec<Value>, String) {
     let tok = format!("b{}x{}", i, salt);
     let k = r["k"].as_str().unwrap();
     let on_a = r["svc"] == "A";
@@ -47,7 +73,9 @@ fn concretise(r: &Value, i: usize, salt: &str) -> (Value, Vec<Value>, String) {
         "getinfo" => (json!({"method": "org.varlink.service.GetInfo"}),
             vec![json!({"parameters": {"vendor": svc::RESOLVER_VENDOR, "product": "resolver", "version": "1", "url": "http://r", "interfaces": ["org.example.gen", "org.example.script"]}})], tok),
         "ok" => if on_a {
-            (json!({"method": "org.example.gen.Ping", "parameters": {"ping": tok}}), vec![json!({"parameters": {"pong": tok}})], tok)
+            // every third such call carries a value larger than the copy buffers of the bridge (8 KiB)
+            let big = if (i + salt.len()) % 3 == 0 { format!("{}{}", tok, "P".repeat(20_000)) } else { tok.clone() };
+            (json!({"method": "org.example.gen.Ping", "parameters": {"ping": big}}), vec![json!({"parameters": {"pong": big}})], tok)
         } else {
             (json!({"method": "org.example.script.Run", "parameters": {"script": ["r"], "tok": tok}}), vec![json!({"parameters": {"step": 1, "tok": tok}})], tok)
         },
@@ -105,6 +133,8 @@ fn reply_eq(want: &Value, got: &Value) -> bool {
 pub fn run(args: &[String]) {
     let bin = std::env::var("VERIF_VARLINK_BIN").expect("VERIF_VARLINK_BIN");
     let sub: String = args.iter().find_map(|a| a.strip_prefix("--direct=")).unwrap_or("connect").to_string();
+    // --abandon: the client writes its requests and closes its side at once, without waiting for the replies (termination clause)
+    let abandon = args.iter().any(|a| a == "--abandon");
     let cases = read_cases();
     let env = start_env("bridge");
     let exe = std::env::current_exe().unwrap().display().to_string();
@@ -120,7 +150,7 @@ pub fn run(args: &[String]) {
         let pipelined = c["pipelined"].as_bool().unwrap();
         let want_exit = c["exit"].as_str().unwrap();
         let salt = format!("{}{}", ci, if pipelined { "p" } else { "s" });
-        let conc: Vec<(Value, Vec<Value>, String)> = reqs.iter().enumerate().map(|(i, r)| concretise(r, i + 1, &salt)).collect();
+        let conc: Vec<(Value, Vec<Value>, String)> = reqs.iter().enumerate().map(|(i, r)| concretise_paced(r, i + 1, &salt, abandon)).collect();
         // who ends an upgraded session: the client (closes its side) or the service (asked to say goodbye and hang up)
         let service_ends = c["upEnd"] == "service" && payload_n > 0;
         let payload: Vec<u8> = if payload_n > 0 { format!("PAYLOAD-{}-first\nPAYLOAD-{}-second\n{}", salt, salt, if service_ends { "HANGUP\n" } else { "" }).into_bytes() } else { Vec::new() };
@@ -154,14 +184,27 @@ pub fn run(args: &[String]) {
         let mut stdout = child.stdout.take().unwrap();
         let collected: Arc<Mutex<Vec<u8>>> = Default::default();
         let c2 = collected.clone();
+        // (polling, so that a client that "goes away" can close its end of the bridge's stdout at any moment)
+        let gone = Arc::new(std::sync::atomic::AtomicBool::new(false));
+        let gone2 = gone.clone();
         let reader = std::thread::spawn(move || {
+            use std::os::unix::io::AsRawFd;
             let mut buf = [0u8; 65536];
+            let fd = stdout.as_raw_fd();
             loop {
-                match stdout.read(&mut buf) {
-                    Ok(0) | Err(_) => break,
-                    Ok(n) => c2.lock().unwrap().extend_from_slice(&buf[..n]),
+                if gone2.load(std::sync::atomic::Ordering::SeqCst) {
+                    break;
+                }
+                let mut pfd = libc::pollfd { fd, events: libc::POLLIN, revents: 0 };
+                let r = unsafe { libc::poll(&mut pfd, 1, 10) };
+                if r > 0 {
+                    match stdout.read(&mut buf) {
+                        Ok(0) | Err(_) => break,
+                        Ok(n) => c2.lock().unwrap().extend_from_slice(&buf[..n]),
+                    }
                 }
             }
+            drop(stdout);
         });
         // the replies the model says the client sees: [req, n] = n-th reply of request req
         let expected: Vec<Value> = c["out"].as_array().unwrap().iter().map(|o| conc[o["req"].as_u64().unwrap() as usize - 1].1[o["n"].as_u64().unwrap() as usize - 1].clone()).collect();
@@ -176,7 +219,18 @@ pub fn run(args: &[String]) {
             true
         };
         let mut stalled = None;
-        if pipelined {
+        if abandon {
+            let mut all = Vec::new();
+            for (q, _, _) in &conc {
+                all.extend_from_slice(&serde_json::to_vec(q).unwrap());
+                all.push(0);
+            }
+            let _ = stdin.write_all(&all);
+            let _ = stdin.flush();
+            // long enough for the bridge to be in the middle of the conversation (the slow service has not answered yet)
+            std::thread::sleep(Duration::from_millis(30 + (ci as u64 % 4) * 40));
+            gone.store(true, std::sync::atomic::Ordering::SeqCst);
+        } else if pipelined {
             let mut all = Vec::new();
             for (q, _, _) in &conc {
                 all.extend_from_slice(&serde_json::to_vec(q).unwrap());
@@ -248,7 +302,14 @@ pub fn run(args: &[String]) {
         let mut problem: Option<String> = stalled;
         if problem.is_none() {
             let got: Vec<Value> = msgs.iter().map(|m| serde_json::from_slice(m).unwrap_or(json!({"NOT-JSON": lossy(m)}))).collect();
-            if got.len() != expected.len() || !expected.iter().zip(got.iter()).all(|(w, g)| reply_eq(w, g)) {
+            if abandon {
+                // whatever was forwarded before the bridge noticed is the beginning of the direct conversation, nothing else
+                // (the pauses inserted into the scripted service's replies shift its step numbers: not compared here)
+                let nostep = |v: &Value| { let mut v = v.clone(); if v["parameters"].get("step").is_some() { v["parameters"]["step"] = json!(0); } v };
+                if got.len() > expected.len() || !expected.iter().zip(got.iter()).all(|(w, g)| reply_eq(&nostep(w), &nostep(g))) {
+                    problem = Some(format!("client (gone right after its last request) was sent {:?} + {:?}, not a prefix of the direct conversation {:?}", got, lossy(&rest), expected));
+                }
+            } else if got.len() != expected.len() || !expected.iter().zip(got.iter()).all(|(w, g)| reply_eq(w, g)) {
                 problem = Some(format!("client saw {:?}{}, direct conversation gives {:?}", got, if rest.is_empty() { String::new() } else { format!(" + raw {:?}", lossy(&rest)) }, expected));
             } else if !rest.is_empty() && String::from_utf8_lossy(&rest).contains("PAYLOAD") {
                 problem = Some(format!("the client's own payload came back to it: {:?}", lossy(&rest)));
